@@ -574,6 +574,7 @@ def flag_rules(R, lib, cls):
     R.rule('R4', 'init(): every path that overwrites key/content assigns the cache-valid flag (false on failure, true only after the fill)', floor=4)
     R.rule('R4-rebind', 'setZoneInfo(): the path that rebinds the zone clears the flag and resets the key', floor=2)
     R.rule('R4-key', 'isFilled() consults both the flag and the key', floor=2)
+    R.rule('R4-keyval', 'init(): the key stored is the value isFilled() was asked about, and the fill helpers get the same year', floor=4)
     isf = lib.fn(cls + '::isFilled')
     reads = []
     for e in all_exprs(isf.body):
@@ -601,6 +602,8 @@ def flag_rules(R, lib, cls):
         raise AnalysisError('anchor vanished: %s::init(const LocalDate&)' % cls)
     for f in inits:
         Engine(FlagRule(R, lib, f, flag, key, content, memo, 'R4')).run(f.body)
+        if key != '?':     # (R4-key has already reported an isFilled() without a key)
+            key_value_rule(R, lib, cls, f, isf, key)
     # setZoneInfo
     sz = lib.fn(cls + '::setZoneInfo')
 
@@ -634,6 +637,79 @@ def flag_rules(R, lib, cls):
                 R.violation('R4-rebind', sz.name, loc, 'zone info is replaced but %s' % (
                     'the valid flag is not cleared' if not st[1] else 'the cached year is not reset'), detail=list(tr))
     Engine(SR()).run(sz.body)
+
+
+def key_value_rule(R, lib, cls, f, isf, key):
+    """On every path of init() that stores the cache key, the stored value is the value isFilled() was asked about on
+    that path, and every fill helper that takes the year gets that same value."""
+    from .gnf import Poly, SymExec, formula_atoms, poly_key_str
+    sx = SymExec(fold_global=lib.global_value)
+    summ = sx.run(f.name, f.body, {})
+    stores = 0
+    ptype = (isf.params[0][1] or '').replace('const', '').strip() if isf.params else ''
+
+    def single_fn(pk):
+        p = Poly(dict(pk))
+        if len(p.t) == 1:
+            (mono, c), = p.t.items()
+            if c == 1 and len(mono) == 1 and mono[0][0] == 'fn':
+                return mono[0]
+        return None
+
+    def fn_atoms(pk, out):
+        for mono, _c in pk:
+            for a in mono:
+                if a[0] == 'fn':
+                    out.append(a)
+                    for arg in a[2]:
+                        if isinstance(arg, tuple) and arg and arg[0] != 'kw':
+                            fn_atoms(arg, out)
+                elif a[0] == 'init':
+                    for arg in a[2]:
+                        fn_atoms(arg, out)
+        return out
+
+    for guard, kind, res, eff in summ.paths:
+        idx = [i for i, (n, v) in enumerate(eff) if n == 'this.' + key]
+        if not idx:
+            continue
+        stores += 1
+        K = eff[idx[-1]][1]
+        c = '%s:key' % f.name
+        R.instance('R4-keyval', c, f.loc, 'stores %s' % poly_key_str(K))
+        tested = []
+        for a in formula_atoms(guard):
+            if a[0] == 'bool':
+                fa = single_fn(a[1])
+                if fa is not None and fa[1] == isf.name and len(fa[2]) >= 2:
+                    tested.append(fa[2][-1])
+        if not tested:
+            R.violation('R4-keyval', c, f.loc, 'the cache key %s is overwritten on a path that did not ask isFilled() first' % key)
+        for t in tested:
+            if t != K:
+                R.violation('R4-keyval', c, f.loc, 'init() asks isFilled(%s) but then labels the cache it fills with %s = %s: a later query for '
+                            'year %s is answered from transitions computed for another year' % (poly_key_str(t), key, poly_key_str(K), poly_key_str(K)))
+        # helpers of the same class called after the key store with a parameter of the key's type named *year*
+        calls = []
+        for n, v in eff[idx[-1]:]:
+            fn_atoms(v if n == 'call' else v, calls)
+        for a in calls:
+            callee = lib.fns(a[1])
+            if not callee or not a[1].startswith(cls + '::'):
+                continue
+            params = callee[0].params
+            args = list(a[2])
+            if len(args) == len(params) + 1:
+                args = args[1:]        # receiver
+            for (pn, pt), arg in zip(params, args):
+                if 'year' in (pn or '').lower() and (pt or '').replace('const', '').strip() == ptype:
+                    cc = '%s->%s(%s)' % (f.name, a[1].split('::')[-1], pn)
+                    R.instance('R4-keyval', cc, f.loc)
+                    if arg != K:
+                        R.violation('R4-keyval', cc, f.loc, 'the cache is labelled %s = %s but %s() fills it for %s' % (
+                            key, poly_key_str(K), a[1].split('::')[-1], poly_key_str(arg)))
+    if not stores:
+        raise AnalysisError('%s: init() has no path that stores the cache key %s' % (f.loc, key))
 
 
 # -- R5: Python cache key -------------------------------------------------------------------------------
@@ -700,6 +776,14 @@ SELFTEST = [
          replace='      mYearTiny = LocalDate::kInvalidYearTiny;\n      mNumTransitions = 0;', rule='R4-rebind'),
     dict(id='isFilled-ignores-year', file='src/ace_time/ExtendedZoneProcessor.h',
          find='return mIsFilled && (year == mYear);', replace='return mIsFilled;', rule='R4-key'),
+    dict(id='key-labelled-with-query-year', file='src/ace_time/BasicZoneProcessor.h',
+         find='      mYearTiny = yearTiny;\n      mNumTransitions = 0; // clear cache', replace='      mYearTiny = ld.yearTiny();\n      mNumTransitions = 0; // clear cache', rule='R4-keyval'),
+    dict(id='fill-helper-gets-query-year', file='src/ace_time/BasicZoneProcessor.h',
+         find='      addTransitionAfterYear(yearTiny, currentEra);', replace='      addTransitionAfterYear(ld.yearTiny(), currentEra);', rule='R4-keyval'),
+    dict(id='extended-key-off-by-one', file='src/ace_time/ExtendedZoneProcessor.h',
+         find='      mYear = year;\n      mNumMatches = 0; // clear cache', replace='      mYear = year + 1;\n      mNumMatches = 0; // clear cache', rule='R4-keyval'),
+    dict(id='key-local-renamed-silent', file='src/ace_time/BasicZoneProcessor.h', regex=True,
+         find=r'(bool init\(const LocalDate& ld\) const \{.*?      mIsFilled = true;)', replace=lambda m: m.group(1).replace('yearTiny', 'yt').replace('ld.yt()', 'ld.yearTiny()'), expect='silent'),
     dict(id='python-key-before-validation', file='tools/zonedb/zone_specifier.py',
          find="            return\n\n        if self.viewing_months == 12:", replace="            return\n\n        self.year = year\n        if self.viewing_months == 12:", rule='R5'),
     dict(id='renamed-local-silent', file='src/ace_time/TimeZone.h', regex=True, unique=False, nth=0,
